@@ -150,6 +150,25 @@ Theorem C09_v5_list_ack_sent :
 Proof. exact CodecV5Enough.v5_list_ack_sent. Qed.
 Print Assumptions C09_v5_list_ack_sent.
 
+(* the same for EVERY packet kind (PUBACK family, CONNACK, DISCONNECT, AUTH, SUBACK, UNSUBACK; the other kinds
+   have no diagnostics to drop): the size computed for the full packet is within the limit whenever the size of
+   the packet without Reason String / User Properties is -- "if that is not enough the encode fails" is an iff *)
+Theorem C09_v5_shortening_enough :
+  forall (p : packet) (L : N),
+         L <= VI_MAX -> packet_encoded_size (drop_diag p) L <= L -> packet_encoded_size p L <= L.
+Proof. exact CodecV5Enough.v5_shortening_enough. Qed.
+Print Assumptions C09_v5_shortening_enough.
+
+Theorem C09_v5_shortened_is_sent :
+  forall (c : ecodec) (p : packet),
+         ec_encoding_payload c = None -> enc_ok p = true ->
+         let q := effective c p in
+         packet_encoded_size (drop_diag q) (max_size_of c) <= max_size_of c ->
+         check_frame_size c (packet_encoded_size q (max_size_of c)) = Ok tt ->
+         exists w, encodev c (EPacket p) = ((w, Ok tt), c).
+Proof. exact CodecV5Enough.v5_shortened_is_sent. Qed.
+Print Assumptions C09_v5_shortened_is_sent.
+
 (* non-vacuity: UNSUBACK, 4 reason codes, 20-byte reason string, peer maximum 34 (size limit 29): the premises
    hold and the packet goes out without its reason string (the input of seeded/C09g) *)
 Example C09_list_ack_nonvacuous :
